@@ -9,7 +9,16 @@ use serde_json::{json, Value};
 use std::collections::{BTreeMap, BTreeSet};
 use std::time::Instant;
 
-pub const VERIF: &str = "/verif";
+/// Output root (evidence/, replays/, KNOWN_FINDINGS.txt). `/verif` unless MC_VERIF_DIR is set — used
+/// only by scratch runs against a copy of the repository (mutants/cross matrices), never by MANIFEST commands.
+pub fn verif_dir() -> String {
+    std::env::var("MC_VERIF_DIR").unwrap_or_else(|_| "/verif".to_string())
+}
+
+/// Root of the crate under test as seen in panic locations (`/repo` unless MC_REPO_DIR is set).
+pub fn repo_dir() -> String {
+    std::env::var("MC_REPO_DIR").unwrap_or_else(|_| "/repo".to_string())
+}
 
 pub const PROPS: [&str; 20] = [
     "C01", "C02", "C03", "C04", "C05", "C06", "C07", "C08", "C09", "C10", "C11", "C12", "C13", "C14", "C15", "C16", "C17", "C18", "C19", "C20",
@@ -82,7 +91,7 @@ pub struct Known {
 
 pub fn load_known() -> Known {
     let mut k = Known { open: vec![] };
-    if let Ok(t) = std::fs::read_to_string(format!("{}/KNOWN_FINDINGS.txt", VERIF)) {
+    if let Ok(t) = std::fs::read_to_string(format!("{}/KNOWN_FINDINGS.txt", verif_dir())) {
         for line in t.lines() {
             let line = line.trim();
             if let Some(rest) = line.strip_prefix("open:") {
@@ -192,7 +201,7 @@ pub fn run(prop: &'static str, tier: Tier, seed: u64) -> i32 {
     let mut new_violations = 0;
     let mut known_hits = 0;
     let mut lines: Vec<String> = vec![];
-    let dir = format!("{}/replays/{}", VERIF, prop);
+    let dir = format!("{}/replays/{}", verif_dir(), prop);
     let mut idx = 0;
     let mut emit = |f: &Finding, case: Value, count: u64, lines: &mut Vec<String>, new_violations: &mut i32, known_hits: &mut i32| {
         let sig = sig_of(f);
@@ -314,8 +323,8 @@ pub fn run(prop: &'static str, tier: Tier, seed: u64) -> i32 {
         "wall_s": (t0.elapsed().as_secs_f64() * 100.0).round() / 100.0,
         "violations": new_violations_total,
     });
-    let _ = std::fs::create_dir_all(format!("{}/evidence", VERIF));
-    let evp = format!("{}/evidence/{}.json", VERIF, prop);
+    let _ = std::fs::create_dir_all(format!("{}/evidence", verif_dir()));
+    let evp = format!("{}/evidence/{}.json", verif_dir(), prop);
     if let Err(e) = std::fs::write(&evp, serde_json::to_string_pretty(&ev).unwrap()) {
         eprintln!("cannot write {}: {}", evp, e);
         return 2;
